@@ -114,27 +114,27 @@ def renderPGap (g : PGap) : Str := g.flatMap PSeg.render
 /-- an item of an entry together with the blanks before it -/
 inductive Piece where
   | item (ws : Str) (it : Item)
-  /-- `(` items `)` : a group that may cross line boundaries.  Only contiguous items here:
-  hickory does not recognise quoted strings inside a group (known finding `quote-inside-list`) -/
-  | group (ws : Str) (els : List (PGap × Str)) (close : PGap)
+  /-- `(` items `)` : a group that may cross line boundaries; its items are contiguous or quoted
+  like any others (inside a quoted item `;`, blanks, line ends and parentheses are data) -/
+  | group (ws : Str) (els : List (PGap × Item)) (close : PGap)
   deriving DecidableEq, Repr
 
 def Piece.render : Piece → Str
   | .item ws it => ws ++ it.render
   | .group ws els close =>
-    ws ++ (40 :: ((els.flatMap fun (g, w) => renderPGap g ++ w) ++ (renderPGap close ++ [41])))
+    ws ++ (40 :: ((els.flatMap fun (g, it) => renderPGap g ++ it.render) ++ (renderPGap close ++ [41])))
 
 def blanksOK (ws : Str) : Bool := !ws.isEmpty && ws.all isBlank
 
 def Piece.ok : Piece → Bool
   | .item ws it => blanksOK ws && it.ok
   | .group ws els close =>
-    blanksOK ws && els.all (fun (g, w) => !g.isEmpty && g.all PSeg.ok && wordOK w) && close.all PSeg.ok
+    blanksOK ws && els.all (fun (g, it) => !g.isEmpty && g.all PSeg.ok && it.ok) && close.all PSeg.ok
 
 /-- the strings a piece contributes to its entry -/
 def Piece.vals : Piece → List Str
   | .item _ it => [it.val]
-  | .group _ els _ => els.map Prod.snd
+  | .group _ els _ => els.map fun p => p.2.val
 
 /-! ### lines -/
 
@@ -362,52 +362,45 @@ def nameUses (st : RState) : List SLine → List (Str × Name × Option Name)
     | some (st', _) => here ++ nameUses st' ls
     | none => here
 
-/-! ### the layouts hickory is known to mishandle — classes of the known findings
+/-! ### the layouts hickory is known to mishandle — classes of the open known findings
 
-What an RFC 1035 §5.1 reader sees in a text: comments (`;` to the end of the line), quoted strings
-with backslash escapes, parentheses.  `scan` mirrors `scan` in `harness/src/props/c20.rs`. -/
+What an RFC 1035 §5.1 reader sees in a text: comments (`;` to the end of the line) and quoted
+strings with backslash escapes.  `scan` mirrors `scan` in `harness/src/props/c20.rs`.
+(The classes `quote-inside-list` and `semicolon-inside-quoted-list-item` are gone with the repair
+055beb6.) -/
 
 structure Scan where
-  /-- a quoted string starts inside a parenthesised group -/
-  quoteInsideList : Bool := false
-  /-- … and contains a semicolon -/
-  semicolonInsideQuotedListItem : Bool := false
-  /-- a quoted string outside parentheses contains `\DDD` with DDD ≥ 10 -/
+  /-- a quoted string (inside parentheses or not) contains `\\DDD` with DDD ≥ 10 -/
   decimalEscape : Bool := false
   deriving DecidableEq, Repr
 
 inductive Mode where
-  | normal | comment | quote (inList : Bool)
+  | normal | comment | quote
   deriving DecidableEq, Repr
 
 /-- `skip` = characters still to be skipped after a backslash -/
-def scanGo : Str → Mode → Bool → Nat → Scan → Scan
-  | [], _, _, _, s => s
-  | c :: rest, mode, paren, skip + 1, s => scanGo rest mode paren skip s
-  | c :: rest, .normal, paren, 0, s =>
-    if c = 59 then scanGo rest .comment paren 0 s
-    else if c = 40 then scanGo rest .normal true 0 s
-    else if c = 41 then scanGo rest .normal false 0 s
-    else if c = 34 then
-      scanGo rest (.quote paren) paren 0 (if paren then { s with quoteInsideList := true } else s)
-    else if c = 92 then scanGo rest .normal paren 1 s
-    else scanGo rest .normal paren 0 s
-  | c :: rest, .comment, paren, 0, s =>
-    if c = 10 then scanGo rest .normal paren 0 s else scanGo rest .comment paren 0 s
-  | c :: rest, .quote il, paren, 0, s =>
-    if c = 34 then scanGo rest .normal paren 0 s
-    else if c = 59 ∧ il then scanGo rest (.quote il) paren 0 { s with semicolonInsideQuotedListItem := true }
+def scanGo : Str → Mode → Nat → Scan → Scan
+  | [], _, _, s => s
+  | _ :: rest, mode, skip + 1, s => scanGo rest mode skip s
+  | c :: rest, .normal, 0, s =>
+    if c = 59 then scanGo rest .comment 0 s
+    else if c = 34 then scanGo rest .quote 0 s
+    else if c = 92 then scanGo rest .normal 1 s
+    else scanGo rest .normal 0 s
+  | c :: rest, .comment, 0, s =>
+    if c = 10 then scanGo rest .normal 0 s else scanGo rest .comment 0 s
+  | c :: rest, .quote, 0, s =>
+    if c = 34 then scanGo rest .normal 0 s
     else if c = 92 then
       match rest with
       | d1 :: d2 :: d3 :: _ =>
         if isDig d1 ∧ isDig d2 ∧ isDig d3 then
-          scanGo rest (.quote il) paren 3
-            (if !il ∧ !(d1 = 48 ∧ d2 = 48) then { s with decimalEscape := true } else s)
-        else scanGo rest (.quote il) paren 1 s
-      | _ => scanGo rest (.quote il) paren 1 s
-    else scanGo rest (.quote il) paren 0 s
+          scanGo rest .quote 3 (if !(d1 = 48 ∧ d2 = 48) then { s with decimalEscape := true } else s)
+        else scanGo rest .quote 1 s
+      | _ => scanGo rest .quote 1 s
+    else scanGo rest .quote 0 s
 
-def scan (t : Str) : Scan := scanGo t .normal false 0 {}
+def scan (t : Str) : Scan := scanGo t .normal 0 {}
 
 def isAlnum (c : Nat) : Bool := (48 ≤ c && c ≤ 57) || (65 ≤ c && c ≤ 90) || (97 ≤ c && c ≤ 122)
 
@@ -420,5 +413,10 @@ def labelLoadable (l : List Nat) : Bool :=
 
 /-- class `name-label-not-ldh` -/
 def nameNotLdh (n : Name) : Bool := n.labels.any fun l => !labelLoadable l
+
+/-- class `escaped-semicolon-in-item` : a label contains `;`.  Written `\\;` in a contiguous item,
+the escape is not honoured by hickory's lexer: the item ends there and the rest of the line is
+taken as a comment (narrower than, and checked before, `name-label-not-ldh`) -/
+def nameHasSemicolon (n : Name) : Bool := n.labels.any fun l => l.contains 59
 
 end HickoryVerif.Spec.MasterFile
